@@ -262,7 +262,7 @@ func runC02(c *Ctx) {
 		// allowed algorithm list: membership call with (Protocol.SignatureAlgorithms, alg)
 		c.CheckGuard("C02.G4", typ+":alg-in-SignatureAlgorithms", f, nil, &GCheck{Name: "alg ∈ Protocol.SignatureAlgorithms", MatchCall: func(c *Ctx, call *ssa.Call, env Env) bool {
 			g := call.Call.StaticCallee()
-			if g == nil || !inModule(g) || !isBoolType(call.Type()) || len(call.Call.Args) != 2 {
+			if g == nil || !(inModule(g) || isSlicesContains(g)) || !isBoolType(call.Type()) || len(call.Call.Args) != 2 {
 				return false
 			}
 			if c.Path(call.Call.Args[0], env) != "$0.Protocol.SignatureAlgorithms" || !isAlg(c.Path(call.Call.Args[1], env)) {
